@@ -14,13 +14,13 @@ open JsightVerif.Model JsightVerif.Gen JsightVerif.Spec
 def walk (h : Head) : List Head → Res
   | [] => if allowedRoot h.kind then .root else .errCtx
   | f :: fs =>
-    match admit f h with
+    match admitIn f h with
     | some (.methodRoot _) => if f.explicit || fs.any (·.explicit) then .errCtxPath else .methodRoot 0
     | some r => r
     | none => if f.explicit then .errCtx else (walk h fs).shift
 
-theorem admit_cases (f h : Head) : admit f h = none ∨ admit f h = some (.child 0) ∨ admit f h = some (.methodRoot 0) := by
-  simp only [admit]
+theorem admit_cases (f h : Head) : admitIn f h = none ∨ admitIn f h = some (.child 0) ∨ admitIn f h = some (.methodRoot 0) := by
+  simp only [admitIn]
   by_cases h1 : allowedIn f.kind h.kind = true
   · by_cases h2 : (isHTTPMethod h.kind && h.hasPath && f.kind == Kind.URL) = true <;> simp [h1, h2]
   · simp [h1]
@@ -95,7 +95,7 @@ theorem attachStack_spec (d : α) (h : Head) (st : List (Frame α)) (carry : Opt
     simp only [attachStack, heads, List.map_nil, walk]
     by_cases hr : allowedRoot h.kind <;> simp [hr, closeAll]
   | cons f rest ih =>
-    simp only [attachStack, heads, List.map_cons, walk, admit, absorb_h]
+    simp only [attachStack, heads, List.map_cons, walk, admitIn, absorb_h]
     by_cases ha : allowedIn f.h.kind h.kind
     · simp only [ha, if_true]
       by_cases hm : (isHTTPMethod h.kind && h.hasPath && f.h.kind == Kind.URL) = true
